@@ -162,13 +162,13 @@ func Run(strat Strategy, maxSteps int, main func()) *Result {
 			break
 		}
 		pick := 0
-		if len(ts) > 1 {
+		if len(ts) > 1 { // only real decisions are recorded (and consume a strategy choice)
 			pick = s.strat.Choose(len(ts))
 			if pick < 0 || pick >= len(ts) {
 				pick = 0
 			}
+			s.res.Choices = append(s.res.Choices, Choice{len(ts), pick})
 		}
-		s.res.Choices = append(s.res.Choices, Choice{len(ts), pick})
 		s.fire(ts[pick])
 		s.res.Steps++
 		if s.res.Steps > s.maxSteps && s.abort == "" {
@@ -440,6 +440,20 @@ func (s *sched) fire(t trans) {
 
 // Go starts fn as a new virtual goroutine (scheduling point; the child is created when it fires).
 func Go(site string, fn func()) { park(&op{kind: opSpawn, fn: fn, site: site}) }
+
+// Spawn starts fn as a new virtual goroutine WITHOUT a scheduling point: the child exists at once and
+// runs to its first scheduling point after the caller parks.  For environment goroutines only (a go
+// statement merely enables transitions, so performing it eagerly loses no behaviour of the others);
+// the go statements of rewritten code use Go.
+func Spawn(site string, fn func()) {
+	s := cur
+	if s == nil {
+		panic("vsched: operation outside Run")
+	}
+	child := s.newG(site, fn)
+	s.res.Log = append(s.res.Log, Event{Kind: "go", G: s.running.id, Site: s.running.site, G2: child.id, Site2: child.site})
+	s.ready = append(s.ready, child)
+}
 
 // Chan is the virtual channel.
 type Chan[T any] struct{ c core }
